@@ -408,7 +408,43 @@ func init() {
 	})
 }
 
+// c17AnnotatedInvalid: an annotation is blank space to the list: a text that is no list
+// of scalars without it (trailing comma, missing comma, missing bracket ...) is none with an
+// annotation put between any two of its tokens.
+func c17AnnotatedInvalid(w *core.W) {
+	invalid := []string{`[1,]`, `[,1]`, `[1,,2]`, `[1 2]`, `[1`, `[`, `]`, `[1,]]`, `["a",]`, `[1,2,]`, `[true,]`, `[null,,]`}
+	anns := []string{" // c\n", " /* c */ ", " // c\n // d\n", "/**/", " //\n"}
+	for _, inv := range invalid {
+		inStr := false
+		for i := 1; i <= len(inv); i++ {
+			if inv[i-1] == '"' {
+				inStr = !inStr
+			}
+			if inStr {
+				continue
+			}
+			for _, a := range anns {
+				text := []byte(inv[:i] + a + inv[i:])
+				w.S.Evaluations++
+				w.S.Traces++
+				w.S.Nontrivial++
+				var err error
+				if rec, site := guard(func() { err = enum.New("e", text).Check() }); rec != nil {
+					w.Violate(bv("no-panic", "annotated-invalid", text, fmt.Sprintf("Check panicked: %v", rec), map[string]string{"site": site}))
+					continue
+				}
+				if err == nil {
+					w.Violate(bv("accept-iff-list-of-distinct-scalars", "annotated-invalid", text, fmt.Sprintf("accepted, although %q is no list of scalars and an annotation is only blank space", inv), map[string]string{"dir": "accepted=true", "why": "annotation-hides-malformed-list"}))
+				}
+			}
+		}
+	}
+}
+
 func c17Run(w *core.W) {
+	if w.Shard == 0 {
+		c17AnnotatedInvalid(w)
+	}
 	e := &seq.Enum{Tokens: c17Tokens, N: c17N(w.Tier), W: w}
 	e.Run(func(s []byte, ntok int, own bool) bool {
 		if own {
